@@ -3,5 +3,6 @@ pub mod drive;
 pub mod engine;
 pub mod gen;
 pub mod known;
+pub mod model;
 pub mod oracle;
 pub mod props;
